@@ -42,6 +42,23 @@ CONTRACTS = [
     ),
 ]
 
+# upsert_routes: the predicate that decides which requested routes the routes module "already has".  It is a lambda
+# inside the real function; find_def turns it mechanically into `def _lambda(call): return <body>`.  The property's
+# clause "operations present are exactly those requested" needs: a decorator counts as the model's route for a method
+# only when it sits on THAT method's path -- POST on the collection route, every other method on the item route.
+CONTRACTS.append(Contract(
+    "cdd.compound.openapi.gen_routes:upsert_routes.<lambda call~call.args[0]>",
+    params={"call": "opaque"},
+    closure={"route": "str", "primary_key": "str", "app": "str"},
+    paths={"call.func.attr": "str", "call.func.value.id": "str", "call.args[0]": "opaque"},
+    pure_results={"get_value": "str"},
+    ensures=[
+        "implies(result and call.func.attr == 'post', pure('get_value', call.args[0]) == route)",
+        "implies(result and call.func.attr != 'post', pure('get_value', call.args[0]) == route + '/:' + primary_key)",
+        "implies(result, call.func.value.id == app)",
+    ],
+))
+
 
 def structural(find_def):
     """emit.openapi defines ServerError before the first call and mutates the document only through the verified function"""
